@@ -101,6 +101,7 @@ type GhostField struct {
 }
 
 type GhostVar struct {
+	PkgPath string
 	Name string
 	Type string
 }
@@ -358,7 +359,7 @@ func (cs *ContractSet) ParseFile(path, pkgPath string) error {
 			}
 			f := strings.Fields(strings.TrimPrefix(it.rest, "var"))
 			if len(f) >= 2 {
-				cs.Ghosts[f[0]] = &GhostVar{Name: f[0], Type: strings.Join(f[1:], " ")}
+				cs.Ghosts[f[0]] = &GhostVar{PkgPath: pkgPath, Name: f[0], Type: strings.Join(f[1:], " ")}
 			}
 		case "lemma", "axiom":
 			cur = nil
